@@ -585,18 +585,38 @@ class InboundStream:
 
     def prune_chunks(self, tsn: int) -> int:
         """
-        Prune chunks up to the given TSN.
+        Prune the chunks of messages which can no longer be completed because
+        one of their fragments up to the given TSN is missing.
         """
-        pos = -1
         size = 0
-        for i, chunk in enumerate(self.reassembly):
-            if uint32_gte(tsn, chunk.tsn):
-                pos = i
-                size += len(chunk.user_data)
+        keep: list[DataChunk] = []
+        pos = 0
+        while pos < len(self.reassembly):
+            # find the run of consecutive fragments starting here
+            end = pos
+            while (
+                end + 1 < len(self.reassembly)
+                and not (self.reassembly[end].flags & SCTP_DATA_LAST_FRAG)
+                and not (self.reassembly[end + 1].flags & SCTP_DATA_FIRST_FRAG)
+                and self.reassembly[end + 1].tsn
+                == tsn_plus_one(self.reassembly[end].tsn)
+            ):
+                end += 1
+            first = self.reassembly[pos]
+            last = self.reassembly[end]
+            if (
+                not (first.flags & SCTP_DATA_FIRST_FRAG)
+                and uint32_gte(tsn, tsn_minus_one(first.tsn))
+            ) or (
+                not (last.flags & SCTP_DATA_LAST_FRAG)
+                and uint32_gte(tsn, tsn_plus_one(last.tsn))
+            ):
+                size += sum(len(c.user_data) for c in self.reassembly[pos : end + 1])
             else:
-                break
+                keep += self.reassembly[pos : end + 1]
+            pos = end + 1
 
-        self.reassembly = self.reassembly[pos + 1 :]
+        self.reassembly = keep
         return size
 
 
@@ -1147,21 +1167,19 @@ class RTCSctpTransport(AsyncIOEventEmitter):
         self._sack_duplicates = list(filter(is_obsolete, self._sack_duplicates))
         self._sack_misordered = set(filter(is_obsolete, self._sack_misordered))
 
-        # update reassembly
+        # advance sequence numbers
         for stream_id, stream_seq in chunk.streams:
             inbound_stream = self._get_inbound_stream(stream_id)
-
-            # advance sequence number and perform delivery
             inbound_stream.sequence_number = uint16_add(stream_seq, 1)
-            for message in inbound_stream.pop_messages():
-                self._advertised_rwnd += len(message[2])
-                await self._receive(*message)
 
-        # prune obsolete chunks
-        for stream_id, inbound_stream in self._inbound_streams.items():
+        # prune obsolete chunks and perform delivery
+        for stream_id, inbound_stream in list(self._inbound_streams.items()):
             self._advertised_rwnd += inbound_stream.prune_chunks(
                 self._last_received_tsn
             )
+            for message in inbound_stream.pop_messages():
+                self._advertised_rwnd += len(message[2])
+                await self._receive(*message)
 
     async def _receive_sack_chunk(self, chunk: SackChunk) -> None:
         """
